@@ -21,6 +21,7 @@ import (
 	"github.com/alibaba/sentinel-golang/core/base"
 	"github.com/alibaba/sentinel-golang/logging"
 	"github.com/alibaba/sentinel-golang/util"
+	"github.com/alibaba/sentinel-golang/util/verifhook"
 	"github.com/pkg/errors"
 )
 
@@ -37,6 +38,7 @@ func (bla *BucketLeapArray) NewEmptyBucket() interface{} {
 }
 
 func (bla *BucketLeapArray) ResetBucketTo(bw *BucketWrap, startTime uint64) *BucketWrap {
+	verifhook.Yield("bla.reset.start")
 	atomic.StoreUint64(&bw.BucketStart, startTime)
 	mb := bw.Value.Load().(*MetricBucket)
 	mb.reset()
